@@ -33,9 +33,23 @@ func (g *bundleGen) addRootDef(name string, s obj) {
 	rd.defs[name] = s
 }
 
+// addRootOp adds an operation whose response (or body parameter) holds the given schema. The HTTP method, the
+// response code and whether the path is templated are drawn, so that every kind of operation-level holder occurs.
 func (g *bundleGen) addRootOp(p string, schema obj) {
 	rd := g.docs[0]
-	rd.paths[p] = obj{"post": obj{"responses": obj{"200": obj{"description": "ok", "schema": schema}}}}
+	r := g.r
+	method := methods[r.Intn(len(methods))]
+	code := []string{"200", "200", "201", "default"}[r.Intn(4)]
+	op := obj{"responses": obj{code: obj{"description": "ok", "schema": schema}}}
+	if r.P(25) {
+		op = obj{"parameters": []any{obj{"name": "body", "in": "body", "schema": schema}}, "responses": obj{"204": obj{"description": "none"}}}
+	}
+	pi := obj{method: op}
+	if r.P(30) {
+		p = p + "/{id}"
+		pi["parameters"] = []any{obj{"name": "id", "in": "path", "required": true, "type": "string"}}
+	}
+	rd.paths[p] = pi
 }
 
 func (g *bundleGen) plantPlus() {
